@@ -172,7 +172,76 @@ fn one<const D: usize>(c: &Value) -> Value {
     })
 }
 
+static STRESS_BARRIER: std::sync::Mutex<Option<Arc<Barrier>>> = std::sync::Mutex::new(None);
+
+/// one sampler on its own thread, started together with the others: `rounds` passes over the first ops of the case;
+/// for every op the distinct outputs seen (a pure function gives exactly one)
+fn stress<const D: usize>(c: &Value) -> Value {
+    let barrier = STRESS_BARRIER.lock().unwrap().clone();
+    let (g, sig) = graph_of(c);
+    let s = g.build_sampler::<D>(sig);
+    if let Some(b) = barrier {
+        b.wait();
+    }
+    let s = match s {
+        Ok(s) => s,
+        Err(e) => return json!({ "build_err": e }),
+    };
+    let ops: Vec<Value> = c["ops"].as_array().unwrap().iter().take(c["stress_ops"].as_u64().unwrap_or(16) as usize).cloned().collect();
+    let rounds = c["stress_rounds"].as_u64().unwrap_or(100);
+    let mut distinct: Vec<Vec<Value>> = vec![vec![]; ops.len()];
+    for _ in 0..rounds {
+        for (i, op) in ops.iter().enumerate() {
+            let sr = &s;
+            let op2 = op.clone();
+            let mut v = guarded(std::panic::AssertUnwindSafe(move || call(sr, &op2)));
+            if let Some(o) = v.as_object_mut() {
+                o.remove("metadata");
+            }
+            if !distinct[i].contains(&v) && distinct[i].len() < 4 {
+                distinct[i].push(v);
+            }
+        }
+    }
+    json!({ "distinct": distinct })
+}
+
 pub fn run(input: &Value) -> Value {
+    if input["stress"].as_bool().unwrap_or(false) {
+        let n = input["cases"].as_array().unwrap().len();
+        *STRESS_BARRIER.lock().unwrap() = Some(Arc::new(Barrier::new(n)));
+        let handles: Vec<_> = input["cases"]
+            .as_array()
+            .unwrap()
+            .iter()
+            .map(|c| {
+                let c = c.clone();
+                std::thread::spawn(move || {
+                    std::panic::set_hook(Box::new(|_| {}));
+                    crate::cmd_table::dispatch_d(&c, [stress::<1>, stress::<2>, stress::<3>, stress::<4>, stress::<5>, stress::<6>])
+                })
+            })
+            .collect();
+        let outs: Vec<Value> = handles.into_iter().map(|h| h.join().unwrap_or(json!({ "panic": "case thread" }))).collect();
+        return json!({ "results": outs });
+    }
+    // all cases at once, each on its own thread: different samplers used concurrently must not influence each other
+    if input["parallel_cases"].as_bool().unwrap_or(false) {
+        let handles: Vec<_> = input["cases"]
+            .as_array()
+            .unwrap()
+            .iter()
+            .map(|c| {
+                let c = c.clone();
+                std::thread::spawn(move || {
+                    std::panic::set_hook(Box::new(|_| {}));
+                    guarded(move || crate::cmd_table::dispatch_d(&c, [one::<1>, one::<2>, one::<3>, one::<4>, one::<5>, one::<6>]))
+                })
+            })
+            .collect();
+        let outs: Vec<Value> = handles.into_iter().map(|h| h.join().unwrap_or(json!({ "panic": "case thread" }))).collect();
+        return json!({ "results": outs });
+    }
     let outs: Vec<Value> = input["cases"]
         .as_array()
         .unwrap()
